@@ -284,6 +284,36 @@ func TestC09Burst(t *testing.T) {
 		}(i)
 	}
 	wg.Wait()
+	// a REQUEST that needs no search (for an address outside the network: nothing to look up, refused or ignored at once) arrives
+	// while another client's DISCOVER holds the database for its probe: both handlers come to an end
+	for _, form := range []string{"init-reboot", "renewing"} {
+		atomic.AddInt64(&vl.n, 1)
+		cfg := srvCfg{netU: 0x0a650000, maskU: 0xffffff00, bits: 24, lease: time.Minute, selfMAC: []byte{2, 0xaa, 0, 0, 0xfe, 1}}
+		cfg.selfIP = cfg.netU + 1
+		cfg.hasRange, cfg.rangeB, cfg.rangeE = true, cfg.netU+10, cfg.netU+12
+		cfg.router = ipStr(cfg.selfIP)
+		s := startRT(t, cfg)
+		time.Sleep(50 * time.Millisecond)
+		g0 := repoGoroutines()
+		a := &simClient{mac: []byte{2, 0xbb, 0, 0xfe, 0, 1}, xid: 0xfe01}
+		b := &simClient{mac: []byte{2, 0xbb, 0, 0xfe, 0, 2}, xid: 0xfe02}
+		outside := cfg.netU + 0x10000 + 5
+		s.seg.Inject(rsocks.KindIP, udpip(0, 0xffffffff, 68, 67, 17, 64, a.msg(1, 0, 0).bytes()))
+		time.Sleep(150 * time.Millisecond)
+		if form == "init-reboot" {
+			s.seg.Inject(rsocks.KindIP, udpip(0, 0xffffffff, 68, 67, 17, 64, b.msg(3, 0, 0, wopt{50, u32b(outside)}).bytes()))
+		} else {
+			s.seg.Inject(rsocks.KindIP, udpip(outside, cfg.selfIP, 68, 67, 17, 64, b.msg(3, 0, outside).bytes()))
+		}
+		g1 := g0 + 1
+		for end := time.Now().Add(6 * time.Second); time.Now().Before(end) && g1 > g0; time.Sleep(100 * time.Millisecond) {
+			g1 = repoGoroutines()
+		}
+		if g1 > g0 {
+			vl.add("burst-stuck-handler", "a %s REQUEST for %s (outside the network) during another client's address search: %d goroutines of the server still running 6 s later (%d when idle)", form, ipStr(outside), g1, g0)
+		}
+		s.stop()
+	}
 	sort.Strings(descs)
 	vl.write(t, "c09burst", map[string]interface{}{"distinct_nontrivial": n, "histogram": map[string]int{"burst:scenarios": n}, "samples": descs[:3]})
 }
